@@ -227,6 +227,18 @@ def is_unknown_helper(fn):
 ALWAYS_INLINE = r"^<internal::ids::\w+ as std::ops::(Add|AddAssign)<\w+>>::(add|add_assign)$"
 
 
+def self_ty_of(it):
+    """name of the innermost call an iterator value is built from (e.g. `<impl [T]>::iter`), '' if unknown"""
+    n = 0
+    while isinstance(it, tuple) and it and it[0] == "app" and it[2] and n < 8:
+        nm = str(it[1])
+        if not re.search(r"iter::Iterator>::", nm):
+            return nm
+        it = it[2][0]
+        n += 1
+    return ""
+
+
 class Engine:
     _next_frame = [0]
 
@@ -403,7 +415,7 @@ class Engine:
                 if v is not None:
                     return v
             if o.get("fn"):
-                return ("fn", o["fn"], o.get("fn_path"))
+                return ("fn", o.get("fn_resolved") or o["fn"], o.get("fn_path"))
             if o.get("static"):
                 return ("ref", ("loc", ("sym", "static:" + o["static_path"].split("::")[-1]), ()), False)
             if o.get("ty") == "()":
@@ -780,6 +792,14 @@ class Engine:
                     # by-value closure: the body takes the closure by value or by ref depending on its kind
                     a0 = ("ref", ("loc", c, ()), False)
                 return (callee, [a0] + spread)
+            if c[0] == "fn" and c[1] in self.facts.fns:
+                # a function of the crate called through a function value
+                callee = self.facts.fns[c[1]]
+                if self.stack.count(callee.name) >= 3:
+                    return None
+                if is_unknown_helper(callee) or (self.inline and (self.inline(callee.name) if callable(self.inline) else re.search(self.inline, callee.name))):
+                    spread = list(args[1][1]) if len(args) > 1 and args[1][0] == "tuple" else ([] if len(args) < 2 or args[1][0] == "unit" else [args[1]])
+                    return (callee, spread)
             return None
         r = t.get("resolved")
         if r and r in self.facts.fns and t.get("resolved_kind") == "Item":
@@ -903,10 +923,36 @@ class Engine:
         if depth > 4 or src[0] != "app" or len(src[2]) < 1:
             return [(base_item, path)]
         nm = str(src[1])
-        m = re.search(r"iter::Iterator>::(map|filter_map|filter|enumerate|cloned|copied|by_ref|inspect)(::<.*>)?$", nm)
+        m = re.search(r"iter::Iterator>::(map|filter_map|filter|flat_map|enumerate|cloned|copied|by_ref|inspect)(::<.*>)?$", nm)
         if not m:
             return [(base_item, path)]
         meth = m.group(1)
+        if meth == "flat_map":
+            # one element of the inner iterator the closure builds for one element of the outer one
+            inner0 = src[2][0]
+            inner0 = self.deref_val(path, inner0) if inner0[0] == "ref" else inner0
+            f0 = src[2][1] if len(src[2]) > 1 else None
+            outs0 = []
+            for el0, p0 in self.iter_elements(path, bb, inner0, base_item, depth + 1):
+                if el0 is None or el0 == ("dead",) or f0 is None or self.closure_target(p0, f0, []) is None:
+                    outs0.append((el0 if el0 is None or el0 == ("dead",) else ("app", nm, (el0,)), p0))
+                    continue
+                rs0 = self.call_closure(p0, bb, f0, [el0])
+                if rs0 is None:
+                    outs0.append((("app", nm, (el0,)), p0))
+                    continue
+                for r0, sp0 in rs0:
+                    if r0 is None:
+                        outs0.append((("dead",), sp0))
+                        continue
+                    r0v = self.deref_val(sp0, r0) if r0[0] == "ref" else r0
+                    inner_item = ("sym", "item@bb%d_in%d" % (bb, depth))
+                    its = r0v
+                    # items of slice iterators are references
+                    if re.search(r"slice::<impl \[|slice::Iter", self_ty_of(its)):
+                        inner_item = ("ref", ("loc", inner_item, ()), False)
+                    outs0.extend(self.iter_elements(sp0, bb, r0v, inner_item, depth + 1))
+            return outs0
         inner = src[2][0]
         inner = self.deref_val(path, inner) if inner[0] == "ref" else inner
         outs = []
@@ -975,8 +1021,8 @@ class Engine:
             self.write_loc(p, self.loc_of_place(p, t["dest"]), ret, bb)
             return go(t["target"], p)
 
-        def cut(p):
-            p.events.append(("call", bb, nm, tuple(args), None, t, self.fn.name, tuple(args), "desugared-iteration"))
+        def cut(p, val=None):
+            p.events.append(("call", bb, nm, tuple(args), val, t, self.fn.name, tuple(args), "desugared-iteration"))
             p.end = ("cut", bb)
             return (None, p)
 
@@ -1205,13 +1251,13 @@ class Engine:
                 if r is None:
                     outs.append(dead(sp))
                 elif meth == "fold":
-                    outs.append(cut(sp))
+                    outs.append(cut(sp, r))
                 else:
                     kv = self.known_variant(sp, r)
                     if kv in ("Err", "None", "Break"):
                         outs.append(finish(sp, r))
                     elif kv in ("Ok", "Some", "Continue"):
-                        outs.append(cut(sp))
+                        outs.append(cut(sp, r[3][0] if r[0] == "adt" and r[3] else ("field", ("downcast", r, kv), "0")))   # the new accumulator
                     else:
                         bad_v = "Err" if "Result<" in dty else ("None" if "Option<" in dty else "Break")
                         good_v = "Ok" if "Result<" in dty else ("Some" if "Option<" in dty else "Continue")
